@@ -499,7 +499,7 @@ func (g *orderGen) intTarget(d int) Expr {
 }
 
 func (g *orderGen) stmt(d int, nest int) []Stmt {
-	n := 12
+	n := 13
 	if nest >= 2 {
 		n = 6 // no compound statements
 	}
@@ -544,6 +544,22 @@ func (g *orderGen) stmt(d int, nest int) []Stmt {
 			R: g.expr(Bool, d-1)}
 		body := append([]Stmt{Assign{Target: V(c), Value: Binary{Op: "+", L: V(c), R: I(1)}}}, g.block(d-2, nest+1)...)
 		return []Stmt{Let{Name: c, IsVar: true, Init: I(0)}, While{Cond: cond, Body: body}}
+	case 12:
+		// inner function declaration / closure with a logging body, called with generated arguments
+		g.feat("inner-function")
+		name := g.fresh("h")
+		fd := &FuncDecl{Name: name, Ret: Int, Params: []Param{{Label: "_", Name: "v", T: Int}, {Name: "w", T: Bool}},
+			Body: []Stmt{Log{E: S(name)}, Return{E: Cond{C: V("w"), A: V("v"), B: Unary{Op: "-", X: V("v")}}}}}
+		var st Stmt = FuncStmt{Decl: fd}
+		if g.draw(2, "closure") == 0 {
+			g.feat("closure")
+			st = Let{Name: name, Init: Closure{Decl: fd}}
+		}
+		res := g.fresh("v")
+		if nest == 0 {
+			defer g.addVar(Int, res)
+		}
+		return []Stmt{st, Let{Name: res, Init: CallVal{F: V(name), Args: []Arg{{E: g.expr(Int, d-1)}, {Label: "w", E: g.expr(Bool, d-1)}}}}}
 	case 11:
 		// a nested optional bound to a variable / tested by if-let (see FV2)
 		if g.draw(2, "nested-stmt") == 0 {
